@@ -212,6 +212,8 @@ class Ctx:
         self.rule = ""
         self.exhaustive = None
         self.violations = []      # (signature, what, detail)
+        self.growth_div = []      # divergences from the GROWTH parts of the specification (behaviour beyond the listed property):
+                                  # reported and recorded, never a VIOLATION of the property (exit status unaffected)
         self.known_hits = {}
         self.extra = {}
         with open(os.path.join(VERIF, "known_findings.json")) as f:
@@ -300,7 +302,7 @@ class Ctx:
             f.write(text)
         return path
 
-    def pmap_emitted(self, path, func, chunk=2000, procs=16):
+    def pmap_emitted(self, path, func, chunk=2000, procs=16, growth=False):
         """Replay every JSON line of an emit file through func(list_of_cases) in a process pool.
         func returns (n_cases, violations[(sig, what, detail)], nontrivial_keys, samples)."""
         import multiprocessing as mp
@@ -322,7 +324,10 @@ class Ctx:
                     raise Machinery("replay worker failed:\n" + viol)
                 total += n
                 for v in viol:
-                    self.violation(*v)
+                    if growth or str(v[0]).startswith("growth:"):
+                        self.growth(*v)
+                    else:
+                        self.violation(*v)
                 self.nontrivial.update(nontriv)
                 for s_ in samples:
                     self.sample(s_)
@@ -394,6 +399,12 @@ class Ctx:
                 return
         self.violations.append((signature, what, detail))
 
+    def growth(self, signature, what, detail=None):
+        """A divergence between the code and a part of the specification that goes beyond the property under check
+        (priority queue internals, adjacency-table order, Track.query, ...).  It does not make the property false, so it
+        is printed as GROWTH-DIVERGENCE, kept in the evidence and in a replay file, and does not change the exit status."""
+        self.growth_div.append((signature, what, detail))
+
     def finish(self):
         wall = time.time() - self.t0
         os.makedirs(EVID, exist_ok=True)
@@ -412,6 +423,18 @@ class Ctx:
                            "counts": {s: len(v) for s, v in bysig.items()}}, f, indent=1, default=str)
             for sig, v in bysig.items():
                 print("  violation class [%s] x%d: %s" % (sig, len(v), v[0]["what"]))
+        if self.growth_div:
+            gpath = os.path.join(OUT, "growth-%s-%s.json" % (self.pid, self.tier))
+            byg = {}
+            for sig, what, detail in self.growth_div:
+                byg.setdefault(sig, []).append({"what": what, "detail": detail})
+            with open(gpath, "w") as f:
+                json.dump({"property": self.pid, "note": "divergences from specification modules that go beyond the listed property",
+                           "divergences": {s_: v[:10] for s_, v in byg.items()}, "counts": {s_: len(v) for s_, v in byg.items()}},
+                          f, indent=1, default=str)
+            for sig, v in byg.items():
+                print("GROWTH-DIVERGENCE property=%s [%s] x%d (beyond the listed property; not a violation): %s" % (self.pid, sig, len(v), v[0]["what"][:300]))
+            self.extra["growth_divergences"] = {s_: len(v) for s_, v in byg.items()}
         cov = {
             "states": self.states, "transitions": self.transitions,
             "traces_validated_against_impl": self.bound,
